@@ -158,4 +158,6 @@ inductive Res (ε α : Type)
   | ok (a : α) | err (e : ε) | trap (why : String)
   deriving Repr
 
+deriving instance DecidableEq for Except
+
 end Owl
